@@ -56,6 +56,9 @@ def run(rep: Report, tier: str) -> None:
         shape = ("ite", ("cmp", "is", lot, ("const", None)), shape[3], shape[2])
     rep.check(shape[0] == "ite" and shape[1] == cb_expected[1] and _is_zero(shape[2]), r, cb_fi.module, cb_fi.qualname, "cost basis is 0 without a lot", f"fiat_cost_basis normalises to {show(cb)[:300]}; expected 0 when there is no acquired lot (income)", loc(cb_fi.node))
     with_lot = shape[3] if shape[0] == "ite" else shape
+    while with_lot[0] == "ite" and with_lot[1] in (cb_expected[1], ("cmp", "is not", lot, ("const", None))):
+        # the same 'no lot' guard repeated inside the branch that already has a lot (cost basis delegating to a guarded property): the guarded value
+        with_lot = with_lot[3] if with_lot[1] == cb_expected[1] else with_lot[2]
     rep.check(with_lot[0] == "div", r, cb_fi.module, cb_fi.qualname, "cost basis: division is the outermost operation", f"cost basis with a lot is {show(with_lot)[:300]}: the quotient must be taken last (multiplying by a rounded quotient loses digits on tiny fractions of huge lots)", loc(cb_fi.node), detail=show(with_lot))
     rep.check(
         tkey(with_lot) == tkey(cb_with),
